@@ -54,6 +54,7 @@ type FuncContract struct {
 	Lets     []LetDef
 	Skip     []string
 	RetHints []*Clause
+	Tables   []string // package-level slice variables whose literal initial contents are assumed
 	EntryHints []*Clause
 	Trusted  bool // contract is assumed, body not verified (listed in evidence)
 	Pure     bool
@@ -126,7 +127,7 @@ func NewContractSet() *ContractSet {
 var clauseKeywords = map[string]bool{
 	"func": true, "pure": true, "ghost": true, "opaque": true, "axiom": true, "lemma": true,
 	"requires": true, "ensures": true, "modifies": true, "news": true, "loop": true, "calls": true,
-	"call": true, "let": true, "skip": true, "return": true, "hint": true, "trusted": true, "decreases": true, "package": true, "end": true,
+	"call": true, "let": true, "skip": true, "return": true, "hint": true, "tables": true, "trusted": true, "decreases": true, "package": true, "end": true,
 }
 
 var pkgLineRe = regexp.MustCompile(`(?m)^package\s+(\w+)`)
@@ -419,6 +420,11 @@ func (cs *ContractSet) LoadContractFile(path, pkgPath string) error {
 			default:
 				return fmt.Errorf("%s:%d: unknown call clause %q", path, rc.line, k2)
 			}
+		case "tables":
+			if cur == nil {
+				return fmt.Errorf("%s:%d: tables outside func", path, rc.line)
+			}
+			cur.Tables = append(cur.Tables, strings.Fields(strings.ReplaceAll(rest, ",", " "))...)
 		case "hint":
 			if cur == nil {
 				return fmt.Errorf("%s:%d: hint outside func", path, rc.line)
